@@ -165,6 +165,15 @@ def check_canonical(ctx, fb, cfg, fn):
     ctx.ok("R13-2", inst, "%d accepting path(s) compare the canonical re-encoding with the source bytes" % acc, loc(it))
 
 
+def tree_internal(u):
+    """the only tree call on the verification paths is root(): its node lookups depend on the tree's own structure
+    invariants (cached default per level), not on the request"""
+    fn = u["site"][0]
+    if re.search(r"^zerokit_utils::(<)?merkle_tree::|^rln::<?pm_tree_adapter::", fn):
+        return "internal: tree structure invariants (C06)"
+    return None
+
+
 def run(ctx):
     cfgs = ["default", "stateless"] if ctx.tier == "quick" else ["default", "stateless", "optimal"]
     ctx.prefetch(cfgs + ["fixtures"])
@@ -174,7 +183,7 @@ def run(ctx):
         for fn, stateful in ENTRIES:
             if stateful and cfg == "stateless":
                 continue
-            check_panics(ctx, fb, cfg, fn)
+            check_panics(ctx, fb, cfg, fn, classify=tree_internal)
             n += 1
             if "recover" not in fn:
                 check_canonical(ctx, fb, cfg, fn)
